@@ -131,6 +131,10 @@ def mk_case(items, g, grp, reorder, edition):
             s += " // c"
         lines.append(s)
     cfg = [["imports_granularity", g], ["group_imports", grp], ["reorder_imports", "true" if reorder else "false"], ["edition", edition]]
+    # the written form must denote the same imports however the lists have to be broken
+    w = [100, 100, 60, 40, 25, 20][sum(len(it["m"]) for it in items) % 6]
+    if w != 100:
+        cfg.append(["max_width", str(w)])
     return {"text": "\n".join(lines) + "\n", "config": cfg, "format": True, "items": items, "g": g, "grp": grp, "reorder": reorder, "edition": edition}
 
 
@@ -143,7 +147,7 @@ def vis_class(v):
 def attr_id(a):
     if a is None:
         return None
-    return {"#[cfg(x)]": 1, "#[allow(unused)]": 2}.get(a, 9)
+    return {"#[cfg(x)]": 1, "#[allow(unused)]": 2}.get("".join(a.split()), 9)       # at narrow widths the attribute itself is broken over lines
 
 
 def render_item(vis, attrs, cmt, txt):
@@ -287,7 +291,7 @@ def run(tier, seed, replay):
     step = max(1, len(cases) // 4)
     rep.coverage.update({
         "evaluations": len(cases), "distinct_nontrivial": len(nontrivial),
-        "rule": "seeded random runs of 1..6 use declarations (one third of them families extending a common base path, the bare prefix included; nested lists to depth 3 below the top, globs, self/super/crate, aliases incl. _, raw identifiers, 8 visibilities (restricted paths that are prefixes of one another included), 3 attribute sets, comments on nested and top-level trees, duplicates) x imports_granularity x group_imports x reorder_imports x edition; (a) regrouped trees and written groups compared with the model, (b) leaves of the re-parsed output compared with the leaves of the input. non-trivial = >= 2 declarations and granularity != Preserve; distinct by hash",
+        "rule": "seeded random runs of 1..6 use declarations (one third of them families extending a common base path, the bare prefix included; nested lists to depth 3 below the top, globs, self/super/crate, aliases incl. _, raw identifiers, 8 visibilities (restricted paths that are prefixes of one another included), 3 attribute sets, comments on nested and top-level trees, duplicates) x imports_granularity x group_imports x reorder_imports x edition x max_width {100, 60, 40, 25, 20}; (a) regrouped trees and written groups compared with the model, (b) leaves of the re-parsed output compared with the leaves of the input. non-trivial = >= 2 declarations and granularity != Preserve; distinct by hash",
         "samples": [{k: v for k, v in cases[i].items() if k in ("text", "config")} for i in range(0, len(cases), step)][:4],
         "correspondence_disagreements": len(disagreements),
         "traces_validated_against_impl": len(cases) if model is not None else 0,
